@@ -26,6 +26,16 @@ func startStallDetector() {
 				buf := make([]byte, 1<<20)
 				n := runtime.Stack(buf, true)
 				fmt.Fprintf(os.Stderr, "HARNESS STALL: no lint call has returned for %v (a lint that does not terminate?)\n%s\n", idle.Round(time.Second), buf[:n])
+				// what was found so far (violations with their inputs included) is still worth reporting
+				if o := activeOutput; o != nil {
+					dump := string(buf[:n])
+					if len(dump) > 12000 {
+						dump = dump[:12000]
+					}
+					o.Data["stalled"] = dump
+					o.Cases = map[string][]Case{}
+					_ = o.Emit()
+				}
 				os.Exit(5)
 			}
 		}
